@@ -3,6 +3,8 @@
 cd /verif && ./build.sh | tail -1
 for d in seeded/*/; do
   s=$(basename $d); p=${s%_*}
+  # a change handed in under one property may be one that another property's check is responsible for (meta.json: checked_by)
+  q=$(python3 -c "import json;print(json.load(open('$d/meta.json')).get('checked_by',''))"); [ -n "$q" ] && p=$q
   r=$(tools/try_seed.sh /verif/seeded/$s $p 2>&1 | tr '\n' ' ')
   echo "$s $r"
 done
